@@ -15,7 +15,9 @@ theorem loop_1x2_safe : ∀ s, Reach (sys cfgLoop1x2) s → safe cfgLoop1x2 s = 
 theorem loop_2x1_safe : ∀ s, Reach (sys cfgLoop2x1) s → safe cfgLoop2x1 s = true :=
   safe_of_check _ { coded with M := 509, W := 200 } 400 _ (by decide +kernel)
 
-theorem loop_tok_safe : ∀ s, Reach (sys cfgLoopTok) s → safe cfgLoopTok s = true :=
-  safe_of_check _ { coded with M := 509, W := 200 } 400 _ (by decide +kernel)
+/-- the client waits for each completion before it enqueues the next item / stops: here deadlock
+    freedom IS the absence of lost wake-ups -/
+theorem loop_wait_safe : ∀ s, Reach (sys cfgLoopWait) s → safe cfgLoopWait s = true :=
+  safe_of_check _ { coded with M := 127, W := 200 } 400 _ (by decide +kernel)
 
 end Unifex.Props.C06
